@@ -11,6 +11,7 @@ import (
 	"fmt"
 	"math"
 	"os"
+	"strings"
 	"sync"
 	"time"
 
@@ -96,7 +97,8 @@ type Config struct {
 	SlashDoubleSignPct int64 `json:"slash_double_sign_pct"`
 	SlashDowntimePct   int64 `json:"slash_downtime_pct"`
 	ReplayBurnMult     int64 `json:"replay_burn_mult"`
-	RSCALOn            bool  `json:"rscal_weighted"` // non-trivial stake weighting parameters
+	RSCALOn            bool  `json:"rscal_weighted"`      // non-trivial stake weighting parameters
+	SplitACL           bool  `json:"split_acl,omitempty"` // every third parameter key is owned by a second owner (key index 1)
 
 	// upgrade schedule installed in genesis (gov Upgrade param)
 	CodecUpgradeHeight int64            `json:"codec_upgrade_height"`
@@ -406,8 +408,13 @@ func BuildGenesis(cfg *Config) app.GenesisState {
 	var govGS govTypes.GenesisState
 	cdc.MustUnmarshalJSON(gen[govTypes.ModuleName], &govGS)
 	acl := govTypes.ACL(make([]govTypes.ACLPair, 0))
-	for _, k := range aclKeys {
-		acl.SetOwner(k, owner)
+	owner2 := AddrOf(KeyFor(cfg.KeySeed, 1))
+	for i, k := range aclKeys {
+		if cfg.SplitACL && i%3 == 1 && !strings.HasPrefix(k, "gov/") {
+			acl.SetOwner(k, owner2)
+		} else {
+			acl.SetOwner(k, owner)
+		}
 	}
 	govGS.Params.ACL = acl
 	govGS.Params.DAOOwner = owner
